@@ -14,6 +14,7 @@ import (
 	"regexp"
 	"sort"
 	"strings"
+	"time"
 
 	iso639_3 "github.com/barbashov/iso639-3"
 
@@ -81,6 +82,7 @@ type viseSnap struct {
 	Idx    int        `json:"idx"`
 	Flags  []int      `json:"flags"`
 	NFlags int        `json:"nflags"`
+	MaxLvl int        `json:"maxlevel"`
 	Code   []Instr    `json:"code"`
 	CodeOk bool       `json:"codeok"`
 	C      cacheSnap  `json:"c"`
@@ -119,7 +121,7 @@ func classifyErrp(e string) errpRec {
 
 // snapState projects state + cache (what the engine level can see without a Vm).
 func snapState(st *state.State, ca *cache.Cache, code []byte, useCode bool) viseSnap {
-	s := viseSnap{Path: append([]string{}, st.ExecPath...), Idx: int(st.SizeIdx), Flags: flagsOf(st), NFlags: int(st.BitSize),
+	s := viseSnap{Path: append([]string{}, st.ExecPath...), Idx: int(st.SizeIdx), Flags: flagsOf(st), NFlags: int(st.BitSize), MaxLvl: state.MaxLevel,
 		Mapped: []kvv{}, Menu: []menuItem{}, Code: []Instr{}, CodeOk: true}
 	if ca != nil {
 		s.C = snapCache(ca)
@@ -402,6 +404,7 @@ type engineHost struct {
 	ca    *cache.Cache
 	nreq  int
 	picks []int
+	initd bool
 }
 
 func newHost(prog *Program, rec *sessRec, mode string, store dbLike, pick func(string, int) int) *engineHost {
@@ -445,7 +448,12 @@ func (h *engineHost) request(input string) *reqEvent {
 				h.ca = h.ca.WithCacheSize(uint32(h.prog.CacheSize))
 			}
 			h.en = engine.NewEngine(h.cfg, h.rs).WithState(h.st).WithMemory(h.ca)
-			ev.Fresh = true
+			h.initd = false
+		}
+		// the engine object initialises the session in its first Exec, unless that Exec refuses an over-long input first
+		ev.Fresh = !h.initd
+		if inputClass(input) != "long" {
+			h.initd = true
 		}
 		en = h.en
 		ev.Pre = h.snapNow()
@@ -460,7 +468,9 @@ func (h *engineHost) request(input string) *reqEvent {
 	rec.ext = nil
 	h.picks = []int{}
 	var all []extEntry
-	func() {
+	done := make(chan struct{})
+	go func() {
+		defer close(done)
 		defer func() {
 			if r := recover(); r != nil {
 				ev.Panic = fmt.Sprint(r)
@@ -470,6 +480,20 @@ func (h *engineHost) request(input string) *reqEvent {
 		cont, err := en.Exec(ctx, []byte(input))
 		ev.Cont, ev.Err = cont, err != nil
 	}()
+	select {
+	case <-done:
+	case <-time.After(20 * time.Second):
+		// the request does not return: recorded as a crash of the request; the process cannot continue
+		vm.VerifHook = nil
+		ev.Panic = "hang: Exec did not return within 20s"
+		ev.Err = true
+		ev.Post, ev.Post2, ev.Saved = ev.Pre, ev.Pre, ev.Pre
+		ev.Ext, ev.Fext, ev.Picks = []extEntry{}, []extEntry{}, []int{}
+		rec.out.put(ev)
+		rec.out.close()
+		summary(map[string]any{"hang": true, "sid": rec.sid})
+		os.Exit(0)
+	}
 	ev.Niter = len(rec.buf)
 	for _, e := range rec.buf {
 		all = append(all, e.Ext...)
@@ -610,17 +634,34 @@ func genProgram(rng *rand.Rand, name string) *Program {
 		var code []Instr
 		var mapped []string
 		haveSink := false
-		// pre-HALT block
-		nl := rng.Intn(4)
+		// pre-HALT block: MAP / RELOAD only of symbols loaded earlier in the same node; declared sizes mostly fit the results
+		loaded := []string{}
+		maxLen := func(s string) int {
+			m := 0
+			for _, r := range p.Syms[s] {
+				if l := len(r.content()); l > m {
+					m = l
+				}
+			}
+			return m
+		}
+		nl := rng.Intn(5)
 		for k := 0; k < nl; k++ {
 			s := syms[rng.Intn(len(syms))]
-			switch rng.Intn(6) {
-			case 0, 1, 2:
-				sz := []int{0, 3, 5, 8, 13, 20, 100}[rng.Intn(7)]
+			switch r := rng.Intn(8); {
+			case r < 4 || len(loaded) == 0:
+				sz := maxLen(s) + []int{0, 0, 1, 5, 100}[rng.Intn(5)]
+				if rng.Intn(3) == 0 && !haveSink {
+					sz = 0
+				}
+				if rng.Intn(25) == 0 && maxLen(s) > 1 {
+					sz = maxLen(s) - 1 // a result may exceed its declared size: the request fails
+				}
 				if sz == 0 && haveSink {
-					sz = 20
+					sz = maxLen(s) + 1
 				}
 				code = append(code, Instr{Op: "LOAD", A: s, N: sz})
+				loaded = append(loaded, s)
 				if rng.Intn(2) == 0 {
 					code = append(code, Instr{Op: "MAP", A: s})
 					mapped = append(mapped, s)
@@ -628,11 +669,11 @@ func genProgram(rng *rand.Rand, name string) *Program {
 						haveSink = true
 					}
 				}
-			case 3:
-				code = append(code, Instr{Op: "RELOAD", A: s})
-			case 4:
-				code = append(code, Instr{Op: "MAP", A: s})
-			case 5:
+			case r == 4:
+				code = append(code, Instr{Op: "RELOAD", A: loaded[rng.Intn(len(loaded))]})
+			case r == 5:
+				code = append(code, Instr{Op: "MAP", A: loaded[rng.Intn(len(loaded))]})
+			default:
 				if i+1 < len(names) {
 					code = append(code, Instr{Op: "CATCH", A: names[i+1+rng.Intn(len(names)-i-1)], N: anyFlag(), M: rng.Intn(2)})
 				} else {
@@ -745,6 +786,11 @@ func cmdViseRandom(args []string) error {
 	stats := &viseStats{Pairs: map[string]int{}}
 	for pi := 0; pi < nprog; pi++ {
 		p := genProgram(rng, fmt.Sprintf("g%d_%d", seed(), pi))
+		state.MaxLevel = 128
+		if pi%4 == 3 {
+			p.MaxLevel = 3 + rng.Intn(3)
+			state.MaxLevel = p.MaxLevel // the depth bound is a library setting; a small one lets histories reach it
+		}
 		out.put(map[string]any{"ev": "prog", "prog": p})
 		for si := 0; si < nsess; si++ {
 			m := mode
@@ -798,6 +844,9 @@ func cmdViseRun(args []string) error {
 	vm.VerifHook = viseHook
 	stats := &viseStats{Pairs: map[string]int{}}
 	n := 0
+	if p.MaxLevel > 0 {
+		state.MaxLevel = p.MaxLevel
+	}
 	null, _ := newNdw(os.DevNull)
 	defer null.close()
 	err = eachLine(args[1], func(b []byte) error {
